@@ -217,6 +217,36 @@ func checkAxiosShape(w *World, r *Result) {
 			}
 		}
 	}
+	if !good {
+		// through a helper that maps a function over a slice: `apiCalls := mapToStrings(api, generateMethod)`
+		ast.Inspect(ga.Decl.Body, func(x ast.Node) bool {
+			call, ok := x.(*ast.CallExpr)
+			if !ok {
+				return true
+			}
+			h := w.Funcs[calleeOf(info, call)]
+			if h == nil {
+				if fn := calleeOf(info, call); fn != nil && fn.Origin() != nil {
+					h = w.Funcs[fn.Origin()]
+				}
+			}
+			itemsIdx, fnIdx, isMap := mapHelper(w, h)
+			if !isMap || itemsIdx >= len(call.Args) || fnIdx >= len(call.Args) {
+				return true
+			}
+			var passed types.Object
+			switch a := ast.Unparen(call.Args[fnIdx]).(type) {
+			case *ast.Ident:
+				passed = info.Uses[a]
+			case *ast.SelectorExpr:
+				passed = info.Uses[a.Sel]
+			}
+			if passed == types.Object(gm.Obj) && identOf(call.Args[itemsIdx]) != nil && paramIndex(ga, objOf(info, identOf(call.Args[itemsIdx]))) >= 0 && len(pathCondsNoLoop(ga, call)) == 0 {
+				good = true
+			}
+			return true
+		})
+	}
 	r.cond(good, "SHP-C14m", ga.Name, "one generateMethod per endpoint, in order", fnPos(w, ga), "apiCalls[i] = generateMethod(endpoint) for every (i, endpoint), unconditionally", "methods are not generated one per endpoint in list order")
 	// method name = Contract.Name
 	ginfo := gm.Pkg.TypesInfo
